@@ -18,6 +18,8 @@ WORLDS = {
     "W4x": dict(keys="W4Keys", files="W4Files", scripts="W4Scripts", srcs="W4Srcs", ops="W4xOps", hasr=True),
     "W4s": dict(keys="W4Keys", files="W4Files", scripts="W4Scripts", srcs="W4Srcs", ops="W4sOps", hasr=True),
     "W4t": dict(keys="W4Keys", files="W4Files", scripts="W4Scripts", srcs="W4Srcs", ops="W4tOps", hasr=True),
+    "W4y": dict(keys="W4Keys", files="W4Files", scripts="W4Scripts", srcs="W4Srcs", ops="W4yOps", hasr=True),
+    "W9o": dict(keys="W9oKeys", files="W9oFiles", scripts="W9oScripts", srcs="W9oSrcs", ops="W9oOps", hasr=True),
     "W4n": dict(keys="W4Keys", files="W4Files", scripts="W4Scripts", srcs="W4Srcs", ops="W4nOps", hasr=True),
     "W4d": dict(keys="W4Keys", files="W4Files", scripts="W4Scripts", srcs="W4Srcs", ops="W4dOps", hasr=True),
     "W5":  dict(keys="W5Keys", files="W5Files", scripts="W5Scripts", srcs="W5Srcs", ops="W5Ops", hasr=True, dirsu='{"d.e"}'),
